@@ -352,6 +352,19 @@ func ruleFanSync(w *World, r *Report) {
 							// next without allocating a new mutex
 							if h, _ := reach(ww, in, func(z ssa.Instruction) bool { return z == in }, func(z ssa.Instruction) bool { return z == ssa.Instruction(a) }, nil); h != nil {
 								protected = true
+								// ... and when the spawner does come back to allocate a new mutex (the next fan-out), every
+								// goroutine of this one has been waited for
+								isWait := func(z ssa.Instruction) bool {
+									c := callOf(z)
+									if c == nil {
+										return false
+									}
+									f := c.StaticCallee()
+									return f != nil && f.Pkg != nil && f.Pkg.Pkg.Path() == "sync" && f.Name() == "Wait"
+								}
+								if h2, _ := reach(ww, in, func(z ssa.Instruction) bool { return z == ssa.Instruction(a) }, isWait, nil); h2 != nil {
+									bad = "the spawner can reach the allocation of a new mutex (the next fan-out) without having waited for the goroutines of this one: goroutines of two fan-outs write the shared memory at " + w.PosOf(x) + " under two different mutexes"
+								}
 							} else {
 								bad = "the mutex guarding the shared write at " + w.PosOf(x) + " is allocated inside the loop: every goroutine locks its own mutex"
 							}
@@ -481,7 +494,7 @@ func init() {
 	register(&propertySpec{
 		ID:      "C04",
 		Explain: "Static fan-out rules for the event walk: every binding / action pair gets a child node on every iteration, each concurrently running action owns its bindings map, the goroutines' shared writes are under one mutex with a complete WaitGroup protocol, and nodes are complete only without error. Does not decide the variable environment seen by scripts, equality of tree / values / side effects, or which bindings the condition yields.",
-		Rules:   []ruleFn{ruleFanOwn, ruleFanSync, ruleFanEvery, ruleSetIfAbsent, ruleDispErr},
+		Rules:   []ruleFn{ruleFanOwn, ruleFanSync, ruleFanEvery, ruleSetIfAbsent, ruleDispErr, ruleLoopAlias},
 	})
 	register(&propertySpec{
 		ID:      "C05",
